@@ -1296,6 +1296,13 @@ func toString(v interface{}) string {
 		return strconv.Itoa(val)
 	case int64:
 		return strconv.FormatInt(val, 10)
+	case uint:
+		return strconv.FormatUint(uint64(val), 10)
+	case uint64:
+		return strconv.FormatUint(val, 10)
+	case float32:
+		// like RenderContext.ToString: plain digits, no exponent
+		return strconv.FormatFloat(float64(val), 'f', -1, 32)
 	case float64:
 		return strconv.FormatFloat(val, 'f', -1, 64)
 	case bool:
